@@ -715,6 +715,20 @@ class Exec:
     def e_YieldFrom(self, e, env):
         """`yield from xs`: every element of xs is yielded in turn."""
         seq = self.ev(e.value, env)
+        if isinstance(seq, T) and seq.op == 'genobj':
+            # a generator function of the package: its yields are the yields of this activation, one by one
+            target, recv, args, kwargs = seq.args
+            outer = self.frames[-1] if self.frames else None
+
+            def consumer(v):
+                if outer is not None:
+                    self.frames.append(outer)
+                try:
+                    self._emit_yield(v)
+                finally:
+                    if outer is not None:
+                        self.frames.pop()
+            return self.inline(target, recv, args, kwargs, consumer=consumer)
         if isinstance(seq, LazyGen):
             while True:
                 ok, v = seq.pull()
